@@ -119,7 +119,7 @@ def job_outcome(j) -> Tuple[str, Any]:
     return "rows", j[1][0]
 
 
-def run_case(model: core.Model, backend: str, uni: qgen.Universe, src: str, events: List[Dict[str, Any]], do_diff: bool = True) -> Res:
+def run_case(model: core.Model, backend: str, uni: qgen.Universe, src: str, events: List[Dict[str, Any]], do_diff: bool = True, values: bool = True) -> Res:
     r = Res()
     c = semrun.translate(backend, src, c04gen.metadata(uni), model)
     r.status = c.status
@@ -137,7 +137,10 @@ def run_case(model: core.Model, backend: str, uni: qgen.Universe, src: str, even
     if not do_diff:
         return r
     c04gen.standin_nonnull(c.prog)
-    partial = bool(input_classes(src) & {"first", "index", "link"})
+    # values are compared for the guard-shaped templates (every column there is a partial operation or its
+    # guard); for freely generated queries a pure value difference with equal fault status and row count is
+    # C01's subject (e.g. an aggregate of an outer-variable expression), counted and left to it
+    partial = values and bool(input_classes(src) & {"first", "index", "link"})
     for i, ev in enumerate(events):
         try:
             ref = c04gen.reference_event(src, ev, uni)
@@ -243,7 +246,7 @@ def check(tier: str, seed: int, t0: float, build: core.BuildStatus) -> int:
         nonlocal value_only, unsupported
         do_diff = backend != "cms_miniaod" or mini_ok
         evs = c04gen.events_for(rng, uni, uses, 2 if tier == "quick" else 4) if do_diff else []
-        r = run_case(model, backend, uni, src, evs, do_diff)
+        r = run_case(model, backend, uni, src, evs, do_diff, origin == "template")
         status_hist[(backend, origin, r.status)] += 1
         if r.status != "ok":
             return
@@ -276,7 +279,7 @@ def check(tier: str, seed: int, t0: float, build: core.BuildStatus) -> int:
             oc.violations.append(core.Violation(
                 key,
                 f"{backend}: {text}  [{src}]",
-                {"backend": backend, "query": src, "event": evs[i], "job_outcome": job, "query_outcome": ref,
+                {"backend": backend, "query": src, "event": evs[i], "values_compared": origin == "template", "job_outcome": job, "query_outcome": ref,
                  "recogniser_rejections": bad_verdicts, "broken": "differential Exec vs reference (C04 oracle: fault equivalence, no dropped row, no stale value)",
                  "emitted_code": r.qlines},
             ))
@@ -366,7 +369,7 @@ def replay(path: str, build: core.BuildStatus) -> int:
     backend, src = rp["backend"], rp["query"]
     uni = qgen.Universe(backend)
     evs = [rp["event"]] if "event" in rp else []
-    r = run_case(model, backend, uni, src, evs, bool(evs))
+    r = run_case(model, backend, uni, src, evs, bool(evs), bool(rp.get("values_compared", True)))
     model.close()
     print(f"backend={backend}\nquery={src}\nstatus={r.status} {r.note}")
     for ln in r.qlines:
